@@ -8,5 +8,8 @@ _here = os.path.dirname(os.path.abspath(__file__))
 sys.path.insert(0, _here)
 PROPS = {}
 for _f in sorted(glob.glob(os.path.join(_here, "props_C*.py"))):
-    _m = importlib.import_module(os.path.basename(_f)[:-3])
-    PROPS[_m.P["id"]] = _m.P
+    try:
+        _m = importlib.import_module(os.path.basename(_f)[:-3])
+        PROPS[_m.P["id"]] = _m.P
+    except Exception as _e:  # a props file that is being edited must not take the other checks down
+        sys.stderr.write("props: skipping %s: %r\n" % (_f, _e))
